@@ -204,7 +204,8 @@ def coq_eval_cases(unit, header, case_type, case_lits, chk, shard=400, timeout=9
         body = ["Require Import Base.", header, "Open Scope Z_scope.",
                 "Definition cases : list (%s) := [" % case_type,
                 ";\n".join(part), "].",
-                "Definition bad := failing (%s) cases." % chk,
+                "Definition chk_fun : (%s) -> bool := %s." % (case_type, chk),
+                "Definition bad := failing chk_fun cases.",
                 "Eval vm_compute in bad."]
         path = os.path.join(CASES, name + ".v")
         with open(path, "w") as fh:
